@@ -54,7 +54,7 @@ Rank(k) == CASE k = "asm" -> 0 [] k = "builder" -> 1 [] OTHER -> 2
 (* programs: 1,2 assembler level; 3 node edits; 4..6 compiler functions; 7 = emits at the current position, then moves to a  *)
 (* user section and STAYS there; 8 = unfinished emission (Builder cursor in the middle / Compiler function left open), *)
 (* never finalized                                                                                                      *)
-ProgRank(p) == IF p <= 2 \/ p = 7 THEN 0 ELSE IF p = 3 \/ p = 8 THEN 1 ELSE 2
+ProgRank(p) == IF p <= 2 \/ p = 7 THEN 0 ELSE IF p = 3 \/ p = 8 THEN 1 ELSE 2      \* 9 = Compiler program abandoned after end_func, before finalize
 Remove(s, x) == SelectSeq(s, LAMBDA y : y # x)
 Rev(s) == [i \in 1 .. Len(s) |-> s[Len(s) + 1 - i]]
 
@@ -165,15 +165,23 @@ HolderOK(h, o, fh, archid) ==
 
 (* fe[kind] = <<private projection of a never attached emitter, of a freshly attached one>>                      *)
 (* relaxEh / relaxJa: a listed known finding excuses exactly the handler fields / the jump-annotation count        *)
-PrivEq(k, a, b, relaxJa) == IF relaxJa /\ k = "compiler"
-                              THEN Len(a) = Len(b) /\ \A i \in 1 .. Len(b) : i = 8 \/ a[i] = b[i]
-                              ELSE a = b
-(* an attached Assembler: priv = <<current section id, stale buffer pointers?, cursor>>.  It is in .text unless its   *)
+(* Builder: <<nodes, label nodes, section nodes, passes, cursor position, dirty-links, pending, align, private, gp sig>>;  *)
+(* Compiler: <<nodes, label nodes, section nodes, passes, cursor position, vregs, open func, jump annotations, const    *)
+(* pools (1 = local, 2 = global), dirty-links, pending, align, private, gp sig>>.  The dirty-section-links flag is logged *)
+(* but not judged: it only schedules an idempotent recomputation and cannot influence output.                          *)
+DirtyIx(k) == IF k = "builder" THEN 6 ELSE 10
+PrivEq(k, a, b, relaxJa) == /\ Len(a) = Len(b)
+                            /\ \A i \in 1 .. Len(b) : \/ a[i] = b[i]
+                                                      \/ (k # "asm" /\ i = DirtyIx(k))
+                                                      \/ (relaxJa /\ k = "compiler" /\ i = 8)
+(* an attached Assembler: priv = <<current section id, stale buffer pointers?, cursor, pending, align, private, gp sig>>.  It is in .text unless its   *)
 (* last program left it in a user section; a freshly attached or reinitialised one is at offset 0 of an empty holder *)
-AsmPrivOK(e, pv) == /\ Len(pv) = 3
-                    /\ (IF em[e].cursec = 0 THEN pv[1] = 0 ELSE pv[1] >= 1)
-                    /\ pv[2] = 0
-                    /\ (gen[em[e].code] = <<>> => pv[3] = 0)
+AsmPrivOK(e, pv, fresh) == /\ Len(pv) = 7 /\ Len(fresh) = 7
+                           /\ (IF em[e].cursec = 0 THEN pv[1] = 0 ELSE pv[1] >= 1)
+                           /\ pv[2] = 0
+                           /\ (gen[em[e].code] = <<>> => pv[3] = 0)
+                           /\ (~em[e].used => pv[4] = 0)                        \* no pending per-instruction state
+                           /\ \A i \in 5 .. 7 : pv[i] = fresh[i]               \* what on_attach derives from the environment
 EmitterOK(e, o, fe, archid, relaxEh, relaxJa) ==
   IF ~em[e].alive THEN ~o.alive
   ELSE /\ o.alive
@@ -185,7 +193,7 @@ EmitterOK(e, o, fe, archid, relaxEh, relaxJa) ==
        /\ o.prev = PrevOf(e) /\ o.next = NextOf(e)
        /\ (em[e].code = 0 => PrivEq(kinds[e], o.priv, fe[KindIx(kinds[e])][1], relaxJa))
        /\ (em[e].code # 0 /\ ~em[e].used /\ kinds[e] # "asm" => PrivEq(kinds[e], o.priv, fe[KindIx(kinds[e])][2], relaxJa))
-       /\ (em[e].code # 0 /\ kinds[e] = "asm" => AsmPrivOK(e, o.priv))
+       /\ (em[e].code # 0 /\ kinds[e] = "asm" => AsmPrivOK(e, o.priv, fe[1][2]))
 
 (* ------------------------------------------------------------------------------ *)
 (* Invariants of the abstract machine (checked by TLC on the explored state space)  *)
